@@ -480,6 +480,18 @@ def label_fidelity(model, R):
                and n.func.attr in ('strip', 'lstrip', 'rstrip', 'lower', 'upper', 'title', 'replace', 'split', 'splitlines', 'casefold', 'translate')]
     R.decided(not touched, 'FIDELITY', lo, touched[0] if touched else lo.node, 'csv loader does not normalise label text', 'labels stored as read',
               src(touched[0]) if touched else '')
+    for key in ('formats.base.Format.loads', 'formats.base.Format.load'):
+        fl = model.func(key)
+        touched = [n for n in walk(fl.body) if isinstance(n, ast.Call) and isinstance(n.func, ast.Attribute)
+                   and n.func.attr in ('strip', 'lstrip', 'rstrip', 'lower', 'upper', 'replace', 'splitlines', 'expandtabs', 'casefold', 'translate')]
+        R.decided(not touched, 'FIDELITY', fl, touched[0] if touched else fl.node, f'{fl.name}: the text reaches the format reader as given', 'no normalisation of the source',
+                  src(touched[0]) if touched else '', extra={'consequence': 'leading/trailing blanks, tabs or line breaks are data in the csv dialects (an empty corner '
+                                                                           'cell, trailing blank cells): stripping them changes the parsed table'} if touched else None)
+    tl = model.func('formats.table.load_file')
+    lines = [s_ for s_ in tl.body if isinstance(s_, ast.Assign) and name_is(s_.targets[0], 'lines')]
+    R.same(len(lines) == 2 and src(lines[0].value) == "(line.partition('#')[0].strip() for line in file)" and src(lines[1].value) == 'list(filter(None, lines))',
+           'FIDELITY', tl, lines[-1] if lines else tl.node, 'table reader: only comments and blank lines are dropped (every other line is a table row)',
+           "line.partition('#')[0].strip(); list(filter(None, lines))", '; '.join(src(x.value)[:70] for x in lines))
     literal_labels(model, R)
 
 
